@@ -377,7 +377,9 @@ def compare(spec, f, exp, g, t: Tally, case):
     a = hdr_filter(exp["req_fields"], drop)
     b = hdr_filter(g.request.headers.fields, drop)
     J("request_headers_equal", a == b, a, b, **differs_in(a, b))
-    if exp["method"] in ("POST", "PUT", "PATCH"):
+    if exp["method"] in ("POST", "PUT", "PATCH") and exp["req_body"] is None:
+        t.note("request body missing (not captured): there is no body to compare")
+    elif exp["method"] in ("POST", "PUT", "PATCH"):
         got, exc = call(g.request.get_content, False)
         J("request_body_equal", exc is None and got == exp["req_body"], exp["req_body"], exc or got)
     if not exp["has_response"]:
